@@ -2,6 +2,7 @@ package main
 
 import (
 	"fmt"
+	"strings"
 
 	bexpr "github.com/hashicorp/go-bexpr"
 )
@@ -161,6 +162,58 @@ func c08ContainersOfBlankRows(r *Run) {
 			r.Seen("blank-containers-filter|" + s + "|" + f + "|" + ka)
 			if ka != kb {
 				r.Violate("hidden-field-changes-filter", "blank-containers-filter|"+s+"|"+f, map[string]interface{}{"expression": fmt.Sprintf(f, s), "datum": describe([]r8Holder{a, a}), "datum_b": "the same holders with hidden fields set"}, ka+" vs "+kb)
+			}
+		}
+	}
+}
+
+// ---------- C18: an unknown value is neutral when every selector resolves - also when it resolves to nil, to a zero value or to an empty container ----------
+
+type r8Nils struct {
+	I  interface{}
+	P  *int
+	PS *string
+	S  []string
+	M  map[string]int
+	IS []interface{}
+	E  string
+	Z  int
+	F  bool
+	N  *r8Inner
+}
+
+func c18UnknownNeutralOnBlankLeaves(r *Run) {
+	docs := []struct {
+		name string
+		d    interface{}
+		sels []string
+	}{
+		{"map-of-nils", map[string]interface{}{"I": nil, "P": (*int)(nil), "S": []string(nil), "M": map[string]int(nil), "IS": []interface{}{nil}, "E": "", "Z": 0, "F": false, "N": (*r8Inner)(nil), "in": map[string]interface{}{"x": nil}},
+			[]string{"I", "P", "S", "M", "IS", "IS.0", "E", "Z", "F", "N", "in.x", `"/in/x"`}},
+		{"struct-of-nils", r8Nils{IS: []interface{}{nil}}, []string{"I", "P", "PS", "S", "M", "IS", "IS.0", "E", "Z", "F", "N"}},
+		{"pointer-to-struct-of-nils", &r8Nils{IS: []interface{}{nil, nil}}, []string{"I", "P", "S", "IS.1", "N"}},
+	}
+	forms := []string{`%s == "web"`, `%s != "web"`, "%s == 0", "%s is empty", "%s is not empty", `"web" in %s`, `"web" not in %s`, "%s matches `w`", "%s not matches `w`",
+		"any %s as v { v == 1 }", "all %s as v { v == 1 }", `not %s == "web"`, `%s == "web" or %s is empty`}
+	unknowns := []interface{}{"web", 0, nil, []string{"web"}, map[string]int{"web": 1}, true, ""}
+	for _, dc := range docs {
+		for _, s := range dc.sels {
+			for _, f := range forms {
+				e := strings.ReplaceAll(f, "%s", s)
+				base := exprObs(e, dc.d)
+				r.Evaluations++
+				if base == "NOCREATE" {
+					continue
+				}
+				for ui, u := range unknowns {
+					o := exprObs(e, dc.d, bexpr.WithUnknownValue(u))
+					r.Evaluations++
+					r.Seen(fmt.Sprintf("unknown-neutral-blank|%s|%s|%d|%s", dc.name, e, ui, o))
+					if o != base {
+						r.Violate("neutral-setting", fmt.Sprintf("unknown-on-blank-leaf|%s|%s|%d", dc.name, e, ui), map[string]interface{}{"expression": e, "datum": describe(dc.d), "unknown_value": describe(u)},
+							"every selector resolves (to nil, a zero value or an empty container): without an unknown value "+base+", with it "+o)
+					}
+				}
 			}
 		}
 	}
